@@ -700,10 +700,12 @@ class Merge(MultiCrossBlock):
         crossing_weights = []
         constraints = constraints + []
         for b in blocks:
-            for f in b.design:
+            # Use the design and crossings as originally given (before weight
+            # desugaring), since `orig_constraints` refers to those factors.
+            for f in b.orig_design:
                 if f not in design:
                     design.append(f)
-            for c in b.crossings:
+            for c in b.orig_crossings:
                 crossings.append(c)
             for count in b.crossing_sustain_counts:
                 crossing_sustain_counts.append(count)
